@@ -125,6 +125,18 @@ class C12(Check):
         elif got.start != s or got.end != e:
             ctx.violation("wrong-span", case, f"got {got.start}-{got.end} expected {s}-{e}")
         ctx.outcome((tuple(map(tuple, spec)), a, b, i, j))
+        # history: the caller edits the result it was given (as BuildAssembly does), then asks the same question again
+        try:
+            if len(got.rows) > 1:
+                got.discard_end()
+            else:
+                got.rows[:] = []
+            again = ia.find_overlaps(Fragment("s", a, b, 1))
+        except Exception as e:  # noqa: BLE001
+            ctx.violation(f"second-lookup-raises:{type(e).__name__}", case, repr(e))
+            return
+        if again is None or len(again.rows) != len(exp_rows) or any(x is not y for x, y in zip(again.rows, exp_rows)) or (again.start, again.end) != (s, e):
+            ctx.violation("second-lookup-differs-after-result-was-edited", case, f"got {None if again is None else (again.rows, again.start, again.end)!r} expected {exp_rows!r} {s}-{e}")
 
     def run_shard(self, shard, ctx):
         kind = shard[0]
